@@ -100,6 +100,12 @@ class SetOrder:
             return self.is_set_expr(f, g0.iter) or self.is_unordered_list(f, g0.iter, depth + 1)
         if isinstance(e, ast.Call) and isinstance(e.func, ast.Name) and e.func.id in ("list", "tuple", "iter", "reversed", "enumerate") and e.args:
             return self.is_set_expr(f, e.args[0]) or self.is_unordered_list(f, e.args[0], depth + 1)
+        if isinstance(e, ast.Call) and isinstance(e.func, ast.Name) and e.func.id in ("map", "filter", "zip") and e.args:
+            # lazy element-wise wrappers keep the order of what they iterate:  map(lookup, ids)  with ids a set
+            its = e.args[1:] if e.func.id in ("map", "filter") else e.args
+            return any(self.is_set_expr(f, a) or self.is_unordered_list(f, a, depth + 1) for a in its)
+        if isinstance(e, ast.Call) and norm(e.func) in ("chain", "itertools.chain", "chain.from_iterable", "itertools.chain.from_iterable") and e.args:
+            return any(self.is_set_expr(f, a) or self.is_unordered_list(f, a, depth + 1) for a in e.args)
         if isinstance(e, ast.BoolOp):
             return any(self.is_unordered_list(f, v, depth + 1) for v in e.values)
         if isinstance(e, ast.IfExp):
